@@ -1456,6 +1456,42 @@ func (g *mxGen) step() {
 	}
 }
 
+// growScene: a signal that lives in several groups (or is fixed) with DIFFERENT single-group
+// followers per group — room to grow in the first group (the follower has to be pushed), too
+// little room in a later one — and then size changes of it: growth that is refused (nothing may
+// move in ANY group), growth that fits, shrinking.  Every follower is exclusive to one group,
+// so the history is admissible (outside D73).
+func (g *mxGen) growScene() {
+	r := g.r
+	x, f, a, b := g.fresh(), g.fresh(), g.fresh(), g.fresh()
+	gs := 12 + r.Intn(8)
+	if g.emit(sprintf("mx sig.mux %d gx%d %d %d", x, x, 2+r.Intn(3), gs)) != "ok" {
+		return
+	}
+	g.sigs = append(g.sigs, x)
+	fsz := 2 + r.Intn(3)
+	g.emit(sprintf("mx sig.leaf %d gf%d %d", f, f, fsz))
+	g.emit(sprintf("mx sig.leaf %d ga%d %d", a, a, 2+r.Intn(3)))
+	bsz := gs - fsz - r.Intn(2) // fills group 1 behind f (up to one free bit)
+	g.emit(sprintf("mx sig.leaf %d gb%d %d", b, b, bsz))
+	g.sigs = append(g.sigs, f, a, b)
+	if r.Intn(3) == 0 {
+		g.emit(sprintf("mx mux.ins %d %d 0", x, f)) // fixed
+	} else {
+		g.emit(sprintf("mx mux.ins %d %d 0 0 1", x, f))
+	}
+	g.emit(sprintf("mx mux.ins %d %d %d 0", x, a, fsz+r.Intn(2)))
+	g.emit(sprintf("mx mux.ins %d %d %d 1", x, b, fsz))
+	if len(g.msgs) > 0 && r.Intn(2) == 0 {
+		g.emit(sprintf("mx msg.app %d %d", g.msgs[r.Intn(len(g.msgs))], x))
+	}
+	g.emit(sprintf("mx dump.mux %d", x))
+	for _, n := range []int{fsz + 2 + r.Intn(4), fsz + 1, fsz - 1, fsz + 1 + r.Intn(2)} {
+		g.emit(sprintf("mx leaf.size %d %d", f, n))
+		g.emit(sprintf("mx dump.mux %d", x))
+	}
+}
+
 func (muxStream) Gen(r *rand.Rand, tier string, idx int) []string {
 	g := &mxGen{r: r, ex: newMxExec()}
 	// seed a useful world quickly
@@ -1470,6 +1506,9 @@ func (muxStream) Gen(r *rand.Rand, tier string, idx int) []string {
 	}
 	for i := 0; i < 3; i++ {
 		g.newLeaf()
+	}
+	if idx%4 == 2 {
+		g.growScene()
 	}
 	n := 30 + r.Intn(51)
 	if tier == "thorough" {
